@@ -3,10 +3,38 @@
 import json, subprocess
 
 CLAIMED = {
+ "C01": dict(
+  text="Proof of every per-entry decision of the transfer and of every argument handed to the kernel, for all stats, modes and paths: diff step (pathChange via the ComparePath contract, merge-loop step obligations), DiskWriter.HandleChange (Lstat-only inspection, creation arm by mode, metadata applied after creation and before rename, RemoveAll iff dir<->non-dir switch, dirModTimes recorded), rewriteMetadata order (xattrs, owner, mode never on symlinks, times last, no-follow), exact nanosecond split in chtimes, mtime re-applied after the asynchronous content write, device number round trip (bit-vector lemma over the real unix.Mkdev body) and device type bits. Not decided: that these per-entry facts compose to tree equality over a real disk and under concurrency (explicit assumption).",
+  note="Assumed contracts (effects) on os.*/unix.*/sysx.* calls; user callbacks do not modify fsutil objects; channel/goroutine semantics not modelled; trusted generated Stat.Clone; signed arithmetic mathematical where safety +overflow is not set.",
+  design="DESIGN.md section 3 C01"),
+ "C02": dict(
+  text="Proof: compareStat/sameFile equal the identity tuple of the statement for all stat pairs (every field; size and mtime exactly for non-directories), DiffNone disables it; the merge loop forwards a change for a common path only if !same; content is requested only on the regular non-link arm of HandleChange, at most once per call; asyncDataFunc sends exactly one REQ with the announced id and consumes the path; fileCanRequestData pinned to the numeric type mask (bit-vector). Whole-merge minimality over two sorted sequences is a bounded stand-in (not counted as proved).",
+  note="Assumed: nextPath/channel semantics (trusted contract), os effects, callbacks; destination and source stats come from the same constructor (call-graph fact).",
+  design="DESIGN.md section 3 C02"),
+ "C03": dict(
+  text="Proof: validator soundness (accept ==> clean, relative, not '.', not '..', not '../…', parent is an open directory, base name above the last child, stack discipline and representation invariant), hard-link source must have been seen, and in the receive loop an entry is forwarded only after both validators accepted it in the same iteration; DATA for an unregistered id is an error before any write; the disk writer inspects with Lstat only and picks the directory arm before the symlink arm.",
+  note="Assumed: audited axioms-free uninterpreted filepath.Clean/Dir/Base/Join/IsAbs (only equalities of identical applications are used); lexical containment of Join(dest,p) for accepted p is an assumption; os effects; no concurrency.",
+  design="DESIGN.md section 3 C03"),
+ "C05": dict(
+  text="Proof: exactly one notification per applied add/modify (non-content entries: after every filesystem effect of the call; content entries: from the asynchronous job after the content callback), delete notified after RemoveAll, nothing notified when a filter rejects, digest header = caller's hash of the stat as sent (never the filtered copy), digest finalised before the writer is closed and before the notification; delete suppression prefix always ends with the separator. Found and repaired: directory-over-directory metadata updates were not notified.",
+  note="Assumed: hasher/notify callbacks, io.MultiWriter, os effects; 'once per path across the whole transfer' needs the merge induction (bounded stand-in); async completion order not modelled.",
+  design="DESIGN.md section 3 C05"),
+ "C06": dict(
+  text="Proof of the sender's per-call protocol obligations for all inputs: one STAT per walk callback with the id counter advanced for every STAT, a regular file registered under its id before the STAT leaves, end marker after a complete walk, single-use ids (queue), one DATA per non-empty chunk and none for empty ones, terminator as the last packet of sendFile, lock bracket around every send, FIN echoed as the last message of a successful request loop, progress accumulated under its lock.",
+  note="Not decided: request order/timing/concurrency, the worker pool, errgroup. Assumed: Stream/FS interface contracts (effects), io.CopyBuffer calls only Write/Read, sync.Pool holds *[]byte.",
+  design="DESIGN.md section 3 C06"),
+ "C07": dict(
+  text="Proof of the receiver's per-call protocol obligations: loop invariant id counter == number of STATs received (ghost), an id is registered under the zero-based position of its STAT, pipe registered before the REQ is sent, each path requested at most once with its announced id, DATA routed to the registered pipe (Close iff empty payload) before the next receive, nil result only after io.EOF.",
+  note="Not decided: interleavings of ids and STAT/DATA races, 'all content on disk before FIN' beyond sequential order. Assumed: Stream contract, channel semantics, trusted generated ResetVT/SizeVT.",
+  design="DESIGN.md section 3 C07"),
  "C12": dict(
-  text="Proof (all inputs, all iterations): ComparePath is proved equal to the first-difference path order with the separator lowest (three postconditions + termination), the order lemmas (irreflexive, asymmetric, transitive, total as a corollary of the verified function) are discharged over the spec, and the validator's soundness direction is proved per call. The completeness direction (accepts every good sequence) is a bounded stand-in and is labelled so in the evidence.",
-  note="Assumes: govc's SSA->SMT translation; string extensionality axiom; audited axioms on filepath.Clean/Dir/Base/Join/IsAbs; sort.Search assumed contract; os.FileInfo methods pure.",
+  text="Proof (all inputs, all iterations): ComparePath is proved equal to the first-difference path order with the separator lowest (three postconditions + termination + index safety + no overflow), the order lemmas (irreflexive, asymmetric, transitive) are discharged over the spec, and the validator's soundness direction, stack discipline and representation invariant are proved per call. The completeness direction (accepts every good sequence) is a bounded stand-in and is labelled so in the evidence.",
+  note="Assumes: govc's SSA->SMT translation; string extensionality axiom; uninterpreted filepath.Clean/Dir/Base/Join/IsAbs and bytewise string order; sort.Search contract (derived from its loop invariant); os.FileInfo methods pure.",
   design="DESIGN.md section 3 C12"),
+ "C19": dict(
+  text="Proof: buffer.alloc hands out the next n bytes of the concatenation view (region directly behind the last one or a fresh chunk at the end; earlier chunks keep position, backing array and length; index/slice safety; no overflow); in the receive loop every non-listing-name STAT is framed as LE32(size)+record of exactly that size, the listing's own name is skipped but still counted in the id sequence (found and repaired), ids are registered only for selected files.",
+  note="Assumed: record bytes = marshalled stat (trusted generated MarshalToSizedBufferVT/SizeVT); selector callback; ancestor-stack replay order is checked only through the forward-after-validation obligation.",
+  design="DESIGN.md section 3 C19"),
 }
 
 NOT_APPLICABLE = {
